@@ -75,6 +75,7 @@ macro_rules! with_drop {
 class!(B1, "b1", u8, 0, true, [repr(C)]);
 class!(W4, "w4", u32, 0, true, [repr(C)]);
 class!(P4, "p4", u32, 0, false, [repr(C)]);
+class!(P1, "p1", u8, 0, false, [repr(C)]);
 class!(S16, "s16", u32, 12, true, [repr(C, align(8))]);
 class!(A32, "a32", u32, 28, true, [repr(C, align(32))]);
 class!(A16, "a16", u32, 12, true, [repr(C, align(16))]);
@@ -94,6 +95,7 @@ macro_rules! layout_assert {
 layout_assert!(B1, 1, 1, true);
 layout_assert!(W4, 4, 4, true);
 layout_assert!(P4, 4, 4, false);
+layout_assert!(P1, 1, 1, false);
 layout_assert!(S16, 16, 8, true);
 layout_assert!(A32, 32, 32, true);
 layout_assert!(A16, 16, 16, true);
